@@ -15,6 +15,24 @@ CLAIMED = {
         note="Trusted: linearity of forward/adjoint on parameter vectors (itself probed), numpy. Classes under recorded "
              "known findings (non-orthonormal expansion geometries; Deconvolution2D even PSF / reflective BC) are excluded and counted.",
         design="3/C07"),
+    "C12": dict(
+        technique="Hypothesis property tests: metamorphic relation across input representations against a harness-computed reference + finite-difference Jacobian oracle + required-refusal checks",
+        text="For generated models (Jacobian, direction-Jacobian, derivative-free, linear from matrix/function pair) over generated "
+             "domain/range geometries (identity-like, image, mapped, KL, step, a user geometry with its own gradient) the output for "
+             "ndarray parameters, flagged function values, CUQIarrays in both representations and Samples must equal "
+             "range.fun2par(F(domain.par2fun(p))) and be wrapped like the input; gradient must equal J_p^T d (central differences of "
+             "forward) or be refused exactly when it cannot be formed; model(distribution) must only rename the input on a copy.",
+        note="Trusted: numpy; central differences with step 1e-6 (tolerance 2e-5). PDE-based models are covered under C18.",
+        design="3/C12"),
+    "C18": dict(
+        technique="Hypothesis property tests: residuals of the discrete equations recomputed independently, reference restriction/interpolation, by-hand assemble-solve-observe pipeline, analytic + finite-difference Jacobian",
+        text="Generated affine-in-parameter steady and time-dependent linear PDE forms (time-dependent operator and source, non-uniform "
+             "time grids, both Euler methods) are solved through every supported linear-solver calling convention; each returned level "
+             "must satisfy its recurrence with the operator of that step; info must be exactly the solver's extra return values; observe "
+             "must be exact at coinciding nodes/times and equal the stated scipy interpolant elsewhere, followed by the observation map; "
+             "PDEModel.forward/gradient must equal the pipeline done by hand and its analytic/finite-difference derivative.",
+        note="Trusted: numpy/scipy linear algebra and interpolation routines.",
+        design="3/C18"),
     "C13": dict(
         technique="Hypothesis property tests: round-trip / idempotence / batch-vs-column metamorphic relations over generated geometries and grids",
         text="Generated geometries of every shipped kind (incl. mapped with/without inverse, KL with any number of modes, step "
